@@ -111,9 +111,41 @@ theorem u32_range (x : Int) : 0 ≤ u32 x ∧ u32 x < 4294967296 := by
   · exact Int.emod_nonneg _ (by decide)
   · exact Int.emod_lt_of_pos _ (by decide)
 
-/-- LIST/INFO strings: every size field, every bytesread, every LIST length (the +1 that wraps 0xFFFFFFFF to 0 included) -/
+theorem infoBufSize_ge (lc : Int) : infoBuffer ≤ infoBufSize lc := by
+  unfold infoBufSize infoBuffer headerCap; split <;> (try split) <;> omega
+
+/-- LIST/INFO strings: every size field, every bytesread, every LIST length (the +1 that wraps 0xFFFFFFFF to 0 included);
+    the buffer is the one allocated for this LIST chunk -/
 theorem info_string_in_bounds (s b lc : Int) : (infoString s b lc).safe := by
   unfold Outcome.safe infoString
+  intro w hw
+  simp only [writes_ite] at hw
+  have h := u32_range (s + s % 2)
+  rcases mem_ite hw with ⟨_, hw⟩ | ⟨hg, hw⟩
+  · cases hw
+  rcases mem_ite hw with ⟨_, hw⟩ | ⟨hg2, hw⟩
+  · cases hw
+  · simp only [List.mem_cons, List.not_mem_nil, or_false] at hw
+    rcases hw with h1 | h1 <;> (subst h1; unfold Write.ok; simp only; omega)
+
+/-- a skipped item lies inside the LIST chunk and the seek that skips it goes forward by less than 2^31 bytes (the `int` count of
+    the 'j' conversion): the walk makes progress.  This is what the 64-bit bound in front of the skip is for. -/
+theorem info_skip_goes_forward (s b lc : Int) (hb : 0 ≤ b) (h : (infoString s b lc).decision = "skip") :
+    0 ≤ u32 (s + s % 2) ∧ u32 (s + s % 2) ≤ 2147483647 ∧ b + u32 (s + s % 2) ≤ lc := by
+  have hr := u32_range (s + s % 2)
+  unfold infoString at h
+  simp only at h
+  split at h
+  · simp at h
+  · rename_i hn
+    refine ⟨hr.1, by omega, by omega⟩
+
+example : (infoString 0xfffffff8 52 220).decision = "too-big" ∧ (infoStringOld 0xfffffff8 52 220).decision = "too-big" ∧
+    (infoString 102401 12 200000).decision = "skip" := by decide
+
+/-- … and for the fixed 2048-byte buffer of the code before the repair -/
+theorem info_string_in_bounds_old_rule (s b lc : Int) : (infoStringOld s b lc).safe := by
+  unfold Outcome.safe infoStringOld
   intro w hw
   simp only [writes_ite] at hw
   simp only [infoBuffer] at hw
@@ -123,13 +155,16 @@ theorem info_string_in_bounds (s b lc : Int) : (infoString s b lc).safe := by
   · simp only [List.mem_cons, List.not_mem_nil, or_false] at hw
     rcases hw with h1 | h1 <;> (subst h1; unfold Write.ok; simp only; omega)
 
-/-- adtl labl: every size field (sizes below 4 wrap to ≥ 0xFFFFFFFC and are refused) -/
+/-- adtl labl: every size field (sizes below 4 wrap to ≥ 0xFFFFFFFC and are refused); the 256 bytes copied into the cue name
+    lie inside the buffer because it never has fewer than 2048 bytes -/
 theorem labl_in_bounds (s b lc : Int) : (labl s b lc).safe := by
   unfold Outcome.safe labl
   intro w hw
   simp only [writes_ite] at hw
-  simp only [infoBuffer, cueName, field] at hw
+  simp only [cueName, field] at hw
   have h := u32_range (u32 (s - 4) + u32 (s - 4) % 2)
+  have hb := infoBufSize_ge lc
+  unfold infoBuffer at hb
   rcases mem_ite hw with ⟨_, hw⟩ | ⟨hg, hw⟩
   · cases hw
   · simp only [List.mem_cons, List.not_mem_nil, or_false] at hw
@@ -176,10 +211,22 @@ theorem smpl_in_bounds (L lc r : Int) : (smpl L lc r).safe := by
     · simp only [ha, if_true]; omega
     · simp only [ha, if_false]; omega
 
-/-- AIFF NAME / AUTH / (c) / ANNO: every chunk size and every threshold the four cases use (slack 0, 1, 2): for (c)
-    the odd size 8191 reads 8192 bytes into the 8192-byte buffer and the terminator goes to index 8191 -/
-theorem aiff_text_in_bounds (slack size : Int) (hs : 0 ≤ slack) (h0 : 0 ≤ size) : (aiffText slack size).safe := by
+/-- AIFF NAME / AUTH / (c) / ANNO: every chunk size; the buffer is allocated from the chunk size (padded + 1 bytes) -/
+theorem aiff_text_in_bounds (slack size : Int) (h0 : 0 ≤ size) : (aiffText slack size).safe := by
   unfold Outcome.safe aiffText
+  intro w hw
+  simp only [writes_ite] at hw
+  rcases mem_ite hw with ⟨_, hw⟩ | ⟨h1, hw⟩
+  · cases hw
+  rcases mem_ite hw with ⟨_, hw⟩ | ⟨h2, hw⟩
+  · cases hw
+  · simp only [List.mem_cons, List.not_mem_nil, or_false] at hw
+    rcases hw with h1 | h1 <;> (subst h1; unfold Write.ok; simp only; omega)
+
+/-- … and for the 8 KiB scratch union of the code before the repair (slack 0, 1, 2): for (c) the odd size 8191 read 8192 bytes
+    into the 8192-byte buffer and the terminator went to index 8191 -/
+theorem aiff_text_in_bounds_old_rule (slack size : Int) (hs : 0 ≤ slack) (h0 : 0 ≤ size) : (aiffTextOld slack size).safe := by
+  unfold Outcome.safe aiffTextOld
   intro w hw
   simp only [writes_ite] at hw
   simp only [scbuf] at hw
@@ -239,11 +286,14 @@ theorem caf_chan_in_bounds (channels tag : Int) (hc : 0 ≤ channels) : (cafChan
 example :
     (bext 602).decision = "read" ∧ (bext 16986).vals = [16384] ∧ (bext 16987).decision = "big" ∧ (bext 601).decision = "small" ∧
     (cart 18432).vals = [16384] ∧ (cart 18433).decision = "too-big" ∧ (cart 2047).decision = "small" ∧
-    (infoString 2046 12 5000).decision = "read" ∧ (infoString 2047 12 5000).decision = "too-big" ∧ (infoString 4294967295 12 5000).vals = [0] ∧
+    (infoString 2046 12 5000).decision = "read" ∧ (infoString 2047 12 5000).decision = "read" ∧ (infoStringOld 2047 12 5000).decision = "too-big" ∧
+    (infoString 4988 12 5000).decision = "read" ∧ (infoString 4989 12 5000).decision = "too-big" ∧ (infoString 102401 12 200000).decision = "skip" ∧
+    (infoString 102399 12 200000).decision = "read" ∧ (infoString 4294967295 12 5000).vals = [0] ∧
     (labl 3 16 5000).decision = "too-big" ∧ (labl 10 16 5000).vals = [6] ∧
     (cue 2500 100).vals = [2500, 4] ∧ (cue 2501 100).decision = "skip" ∧
     (smpl 60 1 24).vals = [1, 1] ∧ (smpl 8 40 1000).vals = [16, 42] ∧ (smpl 36 0 0).vals = [0, 0] ∧
-    (aiffText 1 8190).decision = "read" ∧ (aiffText 1 8191).decision = "too-big" ∧ (aiffText 0 8191).decision = "read" ∧ (aiffText 2 8190).decision = "too-big" ∧ (aiffComt 8191).decision = "read" ∧ (aiffComt 8192).decision = "error" ∧
+    (aiffTextOld 1 8190).decision = "read" ∧ (aiffTextOld 1 8191).decision = "too-big" ∧ (aiffTextOld 0 8191).decision = "read" ∧ (aiffTextOld 2 8190).decision = "too-big" ∧
+    (aiffText 2 8190).decision = "read" ∧ (aiffText 0 102400).decision = "read" ∧ (aiffText 0 102401).decision = "too-big" ∧ (aiffComt 8191).decision = "read" ∧ (aiffComt 8192).decision = "error" ∧
     (cafInfo 102400).decision = "read" ∧ (cafInfo 102401).decision = "too-big" ∧ (cafChan 2 0x650002).vals = [2] := by decide
 
 end Sf.C03
